@@ -90,19 +90,20 @@ package util
 //@   ensures idx < 10 ==> c == 48 + idx
 //@   ensures idx >= 10 && idx < 16 ==> c == 87 + idx
 //@ func (*FullNode).index returns (i)
-//@   props C15
+//@   props C15 C01
 //@   mode wrap
 //@   requires (c >= 48 && c <= 57) || (c >= 97 && c <= 102) || (c >= 65 && c <= 70)      #hex-char
 //@   assigns nothing
-//@   ensures i < 16
+//@   ensures i < 16 && i == HexIdx(c)
 //@ func (*FullNode).GetChild returns (k)
-//@   props C15
+//@   props C15 C01
 //@   mode wrap
 //@   requires (hex >= 48 && hex <= 57) || (hex >= 97 && hex <= 102) || (hex >= 65 && hex <= 70)      #hex-char
 //@   assigns nothing
+//@   ensures k == fn.Children[HexIdx(hex)]
 
 //@ func (*ValueNode).GetValueBytes returns (b)
-//@   props C15
+//@   props C15 C01
 //@   mode wrap
 //@   requires DecodedValue(vn)
 //@   assigns nothing
@@ -310,3 +311,255 @@ package util
 //@   props C19
 //@   requires FoldL(h1, A, o, idx0, m) == FoldL(h2, A, o, idx0, m)
 //@   ensures h1 == h2                                                        #same-fold-same-leaf
+
+// ================= state trie (C01 / C02): helpers =================
+
+// Paths are sequences of hex characters; HexIdx is the child slot of a hex character.
+// (Lowercase only: 'a' and 'A' would share a child slot. Absolute indices into the backing array, so
+// that a sub-slice inherits the fact by instantiation at the same index.)
+//@ spec IsHex(c int) bool = (c >= 48 && c <= 57) || (c >= 97 && c <= 102)
+//@ spec HexIdx(c int) int = c <= 57 ? c - 48 : (c <= 70 ? c - 55 : c - 87)
+//@ pred HexPath(p []byte) = forall k :: off(p) <= k && k < off(p) + len(p) ==> IsHex(arrval(p)[k])
+
+// Number of children of a branch: NCh(C, k) counts the non-nil entries among the first k.
+//@ spec NCh(C (Array Int Slice), k int) int = k <= 0 ? 0 : NCh(C, k-1) + (arr(C[k-1]) != 0 ? 1 : 0)
+//@ spec NumCh(fn *FullNode) int = NCh(fn.Children, 16)
+//@ lemma NChBounds(C (Array Int Slice), k int) induction k
+//@   props C01 C02
+//@   ensures 0 <= NCh(C, k) && (k >= 0 ==> NCh(C, k) <= k)                            #bounds
+//@ lemma NChStore(C (Array Int Slice), k int, i int, v Slice) induction k
+//@   props C01 C02
+//@   requires 0 <= i
+//@   ensures NCh(store(C, i, v), k) == NCh(C, k) + (i < k ? (arr(v) != 0 ? 1 : 0) - (arr(C[i]) != 0 ? 1 : 0) : 0)      #one-entry-changes
+//@ lemma NChWitness(C (Array Int Slice), k int, i int) induction k
+//@   props C01 C02
+//@   requires 0 <= i && i < k && arr(C[i]) != 0
+//@   ensures NCh(C, k) >= 1                                                             #nonnil-entry-counts
+
+//@ lemma NChZero(C (Array Int Slice), k int) induction k
+//@   props C01 C02
+//@   requires forall i :: 0 <= i && i < k ==> arr(C[i]) == 0
+//@   ensures NCh(C, k) == 0                                                             #all-nil-counts-zero
+
+// Does a value node carry a value?
+//@ spec HasVal(v *ValueNode) bool = v != nil && v.Value != nil
+
+// Values stored in the trie are the byte-string proxies created by Insert.
+//@ spec ValOK(v Iface) bool = v is *SecureSerializableValue && v.(*SecureSerializableValue) != nil
+//@ spec ValNodeOK(v *ValueNode) bool = v == nil || v.Value == nil || ValOK(v.Value)
+
+// Canonical shape (C02) of a node that is stored in the trie: an extension has a non-empty path and
+// points to a branch; a leaf carries a value; a branch has two children, or one child and a value.
+//@ pred Canon(n Node) = n != nil && !(n is *ValueNode)
+//@    | && (n is *ExtensionNode ==> n.(*ExtensionNode) != nil && len(n.(*ExtensionNode).Path) > 0 && len(n.(*ExtensionNode).NodeKey) > 0 && KeyIsFull(n.(*ExtensionNode).NodeKey))
+//@    | && (n is *LeafNode ==> n.(*LeafNode) != nil && HasVal(n.(*LeafNode).Value) && ValNodeOK(n.(*LeafNode).Value))
+//@    | && (n is *FullNode ==> n.(*FullNode) != nil && ValNodeOK(n.(*FullNode).Value) && (NumCh(n.(*FullNode)) >= 2 || (NumCh(n.(*FullNode)) >= 1 && HasVal(n.(*FullNode).Value))))
+// Well-formed paths inside nodes.
+//@ pred PathsWF(n Node) = (n is *ExtensionNode ==> HexPath(n.(*ExtensionNode).Path)) && (n is *LeafNode ==> HexPath(n.(*LeafNode).Path))
+
+//@ func (*MerklePatriciaTrie).matchingPrefix returns (r)
+//@   props C01
+//@   opt nilrecv ok
+//@   assigns nothing
+//@   ensures arr(r) == arr(p1) && off(r) == off(p1) && len(r) <= len(p1) && len(r) <= len(p2)                      #prefix-of-p1
+//@   ensures forall i :: 0 <= i && i < len(r) ==> p1[i] == p2[i]                                                    #common
+//@   ensures len(r) < len(p1) && len(r) < len(p2) ==> p1[len(r)] != p2[len(r)]                                      #maximal
+//@   loop 1 invariant 0 <= idx && idx <= len(p1) && idx <= len(p2) && (forall j :: 0 <= j && j < idx ==> p1[j] == p2[j])
+
+//@ func concat returns (r)
+//@   props C01
+//@   mode wrap
+//@   assigns nothing
+//@   ensures fresh(r) && arr(r) != 0 && len(r) == len(s1) + len(s2)                                                 #fresh-concatenation
+//@   ensures forall i :: 0 <= i && i < len(s1) ==> r[i] == s1[i]                                                    #first-part
+//@   ensures forall i :: 0 <= i && i < len(s2) ==> r[len(s1) + i] == s2[i]                                          #second-part
+
+// ---- node accessors ----
+//@ func (*FullNode).GetNumChildren returns (count)
+//@   props C01 C02
+//@   mode wrap
+//@   assigns nothing
+//@   ensures count == NumCh(fn)                                                                                      #counts-children
+//@   loop 1 invariant count == NCh(fn.Children, rangeindex + 1) && count <= rangeindex + 1
+//@ func (*FullNode).HasValue returns (b)
+//@   props C01 C02
+//@   assigns nothing
+//@   ensures b == HasVal(fn.Value)
+//@ func (*LeafNode).HasValue returns (b)
+//@   props C01 C02
+//@   assigns nothing
+//@   ensures b == HasVal(ln.Value)
+//@ func (*FullNode).PutChild
+//@   props C01 C02
+//@   mode wrap
+//@   requires IsHex(hex)                                                                                             #hex-char
+//@   assigns fn.Children
+//@   ensures fn.Children == store(old(fn.Children), HexIdx(hex), child)                                              #one-slot-written
+//@ func (*FullNode).GetValue returns (v)
+//@   props C01
+//@   assigns nothing
+//@   ensures (fn.Value == nil ==> v == nil) && (fn.Value != nil ==> v == fn.Value.Value)
+//@ func (*LeafNode).GetValue returns (v)
+//@   props C01
+//@   assigns nothing
+//@   ensures (HasVal(ln.Value) ==> v == ln.Value.Value) && (!HasVal(ln.Value) ==> v == nil)
+//@ func (*FullNode).SetValue
+//@   props C01 C02
+//@   mode wrap
+//@   assigns fn.Value, fn.Value.Value
+//@   ensures fn.Value != nil && fn.Value.Value == value && (old(fn.Value) != nil ==> fn.Value == old(fn.Value)) && (old(fn.Value) == nil ==> fresh(fn.Value))
+//@ func (*LeafNode).SetValue
+//@   props C01 C02
+//@   mode wrap
+//@   assigns ln.Value, ln.Value.Value
+//@   ensures ln.Value != nil && ln.Value.Value == value && (old(ln.Value) != nil ==> ln.Value == old(ln.Value)) && (old(ln.Value) == nil ==> fresh(ln.Value))
+
+//@ func NewFullNode returns (fn)
+//@   props C01 C02
+//@   mode wrap
+//@   assigns nothing
+//@   ensures fn != nil && fresh(fn) && fn.Value != nil && fresh(fn.Value) && fn.Value.Value == value && NumCh(fn) == 0
+//@   ensures forall i :: 0 <= i && i < 16 ==> fn.Children[i] == nil
+//@ func NewLeafNode returns (ln)
+//@   props C01 C02
+//@   mode wrap
+//@   assigns nothing
+//@   ensures ln != nil && fresh(ln) && ln.Path == path && ln.Prefix == prefix && ln.Value != nil && fresh(ln.Value) && ln.Value.Value == value
+//@ func NewExtensionNode returns (en)
+//@   props C01 C02
+//@   mode wrap
+//@   assigns nothing
+//@   ensures en != nil && fresh(en) && en.Path == path && en.NodeKey == key
+
+//@ lemma NChCongr(C1 (Array Int Slice), C2 (Array Int Slice), k int) induction k
+//@   props C01 C02
+//@   requires forall i :: 0 <= i && i < k ==> (arr(C1[i]) != 0) == (arr(C2[i]) != 0)
+//@   ensures NCh(C1, k) == NCh(C2, k)                                                   #same-nilness-same-count
+
+// ================= state trie (C01 / C02): store access (assumed) and deep copies =================
+//
+// Keys are immutable byte strings; KeyIsFull(k) records that the node stored under k is a branch.
+//@ ufun KeyIsFull(k Slice) bool
+
+// A-store (trusted): the store hands out canonical, well-formed nodes; a key recorded as a branch
+// key resolves to a branch. Only the missing-key list of the trie changes.
+//@ func (*MerklePatriciaTrie).getNode returns (n, err)
+//@   trusted
+//@   assigns mpt.missingNodeKeys
+//@   ensures err == nil ==> n != nil && Canon(n) && PathsWF(n) && ((n is *FullNode) == KeyIsFull(key))
+//@   ensures err != nil ==> n == nil
+
+// insertNode stamps the origin, stores the node under its hash and records the change. Every node
+// handed to it must be canonical (C02) and carry hex paths. Body: see C14.
+//@ func (*MerklePatriciaTrie).insertNode returns (n, key, err)
+//@   trusted
+//@   requires newNode != nil && Canon(newNode) && PathsWF(newNode)                          #canonical-node
+//@   assigns heap(OriginTracker.Origin), heap(OriginTracker.Version)
+//@   ensures err == nil ==> n == newNode && key != nil && len(key) == 32 && ((newNode is *FullNode) == KeyIsFull(key))
+//@ func (*MerklePatriciaTrie).deleteNode returns (err)
+//@   trusted
+//@   requires node != nil
+//@   assigns nothing
+
+// Deep copies by encode/decode (value equality: C14). The copy is a new object with the same shape.
+//@ func (*FullNode).Clone returns (r)
+//@   trusted
+//@   assigns nothing
+//@   ensures r is *FullNode && r.(*FullNode) != nil && fresh(r.(*FullNode)) && HasVal(r.(*FullNode).Value) == HasVal(fn.Value)
+//@   ensures forall i :: 0 <= i && i < 16 ==> (r.(*FullNode).Children[i] == nil) == (fn.Children[i] == nil) && (fn.Children[i] != nil ==> KeyIsFull(r.(*FullNode).Children[i]) == KeyIsFull(fn.Children[i]))
+//@   ensures r.(*FullNode).Value != nil ==> fresh(r.(*FullNode).Value)
+//@   ensures ValNodeOK(fn.Value) ==> ValNodeOK(r.(*FullNode).Value)
+//@ func (*LeafNode).Clone returns (r)
+//@   trusted
+//@   assigns nothing
+//@   ensures r is *LeafNode && r.(*LeafNode) != nil && fresh(r.(*LeafNode)) && HasVal(r.(*LeafNode).Value) == HasVal(ln.Value)
+//@   ensures len(r.(*LeafNode).Path) == len(ln.Path) && (forall i :: 0 <= i && i < len(ln.Path) ==> r.(*LeafNode).Path[i] == ln.Path[i])
+//@   ensures r.(*LeafNode).Value != nil ==> fresh(r.(*LeafNode).Value)
+//@   ensures ValNodeOK(ln.Value) ==> ValNodeOK(r.(*LeafNode).Value)
+//@   ensures HexPath(ln.Path) ==> HexPath(r.(*LeafNode).Path)
+//@ func (*ExtensionNode).Clone returns (r)
+//@   trusted
+//@   assigns nothing
+//@   ensures r is *ExtensionNode && r.(*ExtensionNode) != nil && fresh(r.(*ExtensionNode))
+//@   ensures len(r.(*ExtensionNode).Path) == len(en.Path) && (forall i :: 0 <= i && i < len(en.Path) ==> r.(*ExtensionNode).Path[i] == en.Path[i])
+//@   ensures len(r.(*ExtensionNode).NodeKey) == len(en.NodeKey) && KeyIsFull(r.(*ExtensionNode).NodeKey) == KeyIsFull(en.NodeKey)
+//@   ensures HexPath(en.Path) ==> HexPath(r.(*ExtensionNode).Path)
+
+//@ func (*OriginTrackerNode).SetOrigin
+//@   props C01
+//@   mode wrap
+//@   assigns otn.OriginTracker.(*OriginTracker).Origin, otn.OriginTracker.(*OriginTracker).Version
+
+// ================= state trie (C01 / C02): lookup, insert, delete =================
+
+//@ func (*MerklePatriciaTrie).insertLeaf returns (n, key, err)
+//@   props C01 C02
+//@   mode wrap
+//@   requires ValOK(value) && HexPath(path)
+//@   assigns heap(OriginTracker.Origin), heap(OriginTracker.Version)
+//@   ensures err == nil ==> n != nil && n is *LeafNode && key != nil && len(key) == 32 && !KeyIsFull(key)
+//@ func (*MerklePatriciaTrie).insertExtension returns (n, key, err)
+//@   props C01 C02
+//@   mode wrap
+//@   requires len(path) > 0 && HexPath(path) && len(key) > 0 && KeyIsFull(key)                   #canonical-extension
+//@   assigns heap(OriginTracker.Origin), heap(OriginTracker.Version)
+//@   ensures err == nil ==> n != nil && n is *ExtensionNode && key != nil && len(key) == 32
+
+//@ func (*MerklePatriciaTrie).getNodeValueRaw returns (v, err)
+//@   props C01
+//@   mode wrap
+//@   requires node != nil && Canon(node) && PathsWF(node) && HexPath(path)
+//@   assigns mpt.missingNodeKeys
+
+//@ func (*MerklePatriciaTrie).insert returns (n, k, err)
+//@   props C01 C02
+//@   mode wrap
+//@   requires ValOK(value) && HexPath(path)
+//@   assigns mpt.missingNodeKeys, heap(OriginTracker.Origin), heap(OriginTracker.Version)
+//@   ensures err == nil ==> n != nil && k != nil && len(k) == 32 && (n is *FullNode ==> KeyIsFull(k))
+//@   ensures err == nil && KeyIsFull(key) ==> n is *FullNode                                                   #a-branch-stays-a-branch
+
+//@ func (*MerklePatriciaTrie).insertAfterPathTraversal returns (n, k, err)
+//@   props C01 C02
+//@   mode wrap
+//@   requires ValOK(value) && node != nil && Canon(node) && PathsWF(node)
+//@   assigns mpt.missingNodeKeys, heap(OriginTracker.Origin), heap(OriginTracker.Version)
+//@   ensures err == nil ==> n != nil && k != nil && len(k) == 32 && (n is *FullNode ==> KeyIsFull(k))
+//@   ensures err == nil && node is *FullNode ==> n is *FullNode                                                #a-branch-stays-a-branch
+
+//@ func (*MerklePatriciaTrie).insertAtNode returns (n, k, err)
+//@   props C01 C02
+//@   mode wrap
+//@   requires ValOK(value) && node != nil && Canon(node) && PathsWF(node) && len(path) > 0 && HexPath(path)
+//@   assigns mpt.missingNodeKeys, heap(OriginTracker.Origin), heap(OriginTracker.Version)
+//@   ensures err == nil ==> n != nil && k != nil && len(k) == 32 && (n is *FullNode ==> KeyIsFull(k))
+//@   ensures err == nil && node is *FullNode ==> n is *FullNode                                                #a-branch-stays-a-branch
+
+//@ func (*MerklePatriciaTrie).delete returns (n, k, err)
+//@   props C01 C02
+//@   mode wrap
+//@   requires HexPath(path)
+//@   assigns mpt.missingNodeKeys, heap(OriginTracker.Origin), heap(OriginTracker.Version), heap(LeafNode.Path), heap(LeafNode.Prefix), heap(ExtensionNode.Path), heap(ExtensionNode.NodeKey)
+//@   ensures err == nil && n != nil ==> k != nil && len(k) == 32 && ((n is *FullNode) == KeyIsFull(k)) && (n is *LeafNode || n is *FullNode || n is *ExtensionNode)
+//@   ensures err == nil && n == nil ==> k == nil
+//@   ensures err == nil && KeyIsFull(key) ==> n != nil                                                           #a-canonical-branch-does-not-vanish
+
+// The remaining path is exhausted at node: only a value stored exactly here may be removed.
+//@ func (*MerklePatriciaTrie).deleteAfterPathTraversal returns (n, k, err)
+//@   props C01 C02
+//@   mode wrap
+//@   requires node != nil && Canon(node) && PathsWF(node)
+//@   assigns mpt.missingNodeKeys, heap(OriginTracker.Origin), heap(OriginTracker.Version), heap(LeafNode.Path), heap(LeafNode.Prefix), heap(ExtensionNode.Path), heap(ExtensionNode.NodeKey)
+//@   ensures (node is *LeafNode && len(node.(*LeafNode).Path) > 0) || (node is *FullNode && !HasVal(node.(*FullNode).Value)) || node is *ExtensionNode ==> err != nil      #absent-is-reported
+//@   ensures err == nil && n != nil ==> k != nil && len(k) == 32 && ((n is *FullNode) == KeyIsFull(k)) && (n is *LeafNode || n is *FullNode || n is *ExtensionNode)
+//@   ensures err == nil && n == nil ==> k == nil
+//@   ensures err == nil && node is *FullNode ==> n != nil
+
+//@ func (*MerklePatriciaTrie).deleteAtNode returns (n, k, err)
+//@   props C01 C02
+//@   mode wrap
+//@   requires node != nil && Canon(node) && PathsWF(node) && len(path) > 0 && HexPath(path)
+//@   assigns mpt.missingNodeKeys, heap(OriginTracker.Origin), heap(OriginTracker.Version), heap(LeafNode.Path), heap(LeafNode.Prefix), heap(ExtensionNode.Path), heap(ExtensionNode.NodeKey)
+//@   ensures err == nil && n != nil ==> k != nil && len(k) == 32 && ((n is *FullNode) == KeyIsFull(k)) && (n is *LeafNode || n is *FullNode || n is *ExtensionNode)
+//@   ensures err == nil && n == nil ==> k == nil
+//@   ensures err == nil && node is *FullNode ==> n != nil
